@@ -9,7 +9,7 @@
  * on stdout, per program:
  *     @@BEGIN <id>
  *     ...whatever the program and the runtime wrote to stdout/stderr, in order...
- *     @@OUTCOME <id> <kind> <detail>
+ *     @@OUTCOME <id> <kind> <detail>        (always preceded by a newline, so it starts a line)
  *     @@END <id> status=<exit code | signal N | timeout>
  * where <kind> is one of
  *     COMPILE_ERROR <ret>       nev_compile_str returned non-zero
@@ -36,14 +36,14 @@ static void print_result(const char * id, object * r)
 {
     switch (r->type)
     {
-    case OBJECT_INT: printf("@@OUTCOME %s RESULT int %d\n", id, r->int_value); break;
-    case OBJECT_LONG: printf("@@OUTCOME %s RESULT long %lld\n", id, r->long_value); break;
+    case OBJECT_INT: printf("\n@@OUTCOME %s RESULT int %d\n", id, r->int_value); break;
+    case OBJECT_LONG: printf("\n@@OUTCOME %s RESULT long %lld\n", id, r->long_value); break;
     case OBJECT_FLOAT: { unsigned int b; memcpy(&b, &r->float_value, 4);
-        printf("@@OUTCOME %s RESULT float 0x%08x %g\n", id, b, (double)r->float_value); break; }
+        printf("\n@@OUTCOME %s RESULT float 0x%08x %g\n", id, b, (double)r->float_value); break; }
     case OBJECT_DOUBLE: { unsigned long long b; memcpy(&b, &r->double_value, 8);
-        printf("@@OUTCOME %s RESULT double 0x%016llx %g\n", id, b, r->double_value); break; }
-    case OBJECT_CHAR: printf("@@OUTCOME %s RESULT char %d\n", id, (int)r->char_value); break;
-    default: printf("@@OUTCOME %s RESULT other %d\n", id, (int)r->type); break;
+        printf("\n@@OUTCOME %s RESULT double 0x%016llx %g\n", id, b, r->double_value); break; }
+    case OBJECT_CHAR: printf("\n@@OUTCOME %s RESULT char %d\n", id, (int)r->char_value); break;
+    default: printf("\n@@OUTCOME %s RESULT other %d\n", id, (int)r->type); break;
     }
 }
 
@@ -57,20 +57,20 @@ static int run_one(const char * id, const char * src, const char * entry, unsign
     ret = nev_compile_str(src, prog);
     if (ret != 0)
     {
-        printf("@@OUTCOME %s COMPILE_ERROR %d\n", id, ret);
+        printf("\n@@OUTCOME %s COMPILE_ERROR %d\n", id, ret);
         program_delete(prog);
         return 0;
     }
     if (compile_only)
     {
-        printf("@@OUTCOME %s COMPILED 0\n", id);
+        printf("\n@@OUTCOME %s COMPILED 0\n", id);
         program_delete(prog);
         return 0;
     }
     ret = nev_prepare_argc_argv(prog, entry, argc, argv);
     if (ret != 0)
     {
-        printf("@@OUTCOME %s PREPARE_ERROR %d\n", id, ret);
+        printf("\n@@OUTCOME %s PREPARE_ERROR %d\n", id, ret);
         program_delete(prog);
         return 0;
     }
@@ -78,7 +78,7 @@ static int run_one(const char * id, const char * src, const char * entry, unsign
     ret = nev_execute(prog, machine, &result);
     fflush(stdout);
     if (ret == 0) print_result(id, &result);
-    else printf("@@OUTCOME %s EXEC_ERROR %d\n", id, ret);
+    else printf("\n@@OUTCOME %s EXEC_ERROR %d\n", id, ret);
     vm_delete(machine);
     program_delete(prog);
     return 0;
